@@ -21,6 +21,7 @@ def run(item):
     cls = dict(smooth=(SmoothStronglyConvexFunction, dict(mu=.25, L=1.)), convex=(ConvexFunction, {}),
                qg=(ConvexQGFunction, dict(L=1.)))
     pep, funs, pts, parts = None, [], [], []
+    comps = []
     obs = []
     for a in item["h"]:
         with contextlib.redirect_stdout(io.StringIO()):
@@ -50,6 +51,13 @@ def run(item):
                     parts[0].get_block(pts[a["k"] - 1], 0)
                 elif k == "solve":
                     pep.solve(verbose=0, solver="CLARABEL")
+                elif k == "compose":
+                    comps.append(funs[a["f"] - 1] + funs[a["k"] - 1])
+                elif k == "fcondition":
+                    funs[a["f"] - 1].add_constraint(pts[0] ** 2 <= 2)
+                elif k == "prox":
+                    from PEPit.primitive_steps import proximal_step
+                    proximal_step(pts[a["k"] - 1], funs[a["f"] - 1], 1)
                 else:
                     raise KeyError(k)
             except KeyError:
